@@ -38,6 +38,18 @@ func main() {
 				}
 			}
 		}
+		// two subscriptions cancelled at the same time by different threads, a third one stays
+		for _, wb := range []string{"", "put"} {
+			p := database.C14SParams{WriterA: 1, WriterB: wb, Cancels: 1, TwoCancels: true}
+			for _, hf := range []bool{false, true} {
+				sc := database.VerifC14S(p)
+				sc.HighFirst = hf
+				if hf {
+					sc.Name += "/sched=high"
+				}
+				scns = append(scns, &slib.Scn{Scenario: sc, Family: "c14s", Bound: b})
+			}
+		}
 		slib.Run(c, scns, slib.Opts{})
 	})
 }
